@@ -21,15 +21,15 @@ MODEL_NOTE = "Trusted: the harness's reference evaluator (refmodel: own indexer,
 
 prop("C01",
      "property-based testing (rapid): grammar-generated 2020-12 schema documents x instances, differential against an independent reference evaluator",
-     "Grammar-based generation of whole 2020-12 schema documents (every assertion and applicator keyword, boolean schemas at every position, $defs/$anchor/$ref, unevaluated*, lenses for numeric/string/array/object/logic/reference interactions) with operands and instance leaves drawn from the same small boundary pools; each schema meets 4 instances (schema-directed satisfier + single-point mutations, free draws). The library verdict (Unmarshal, Resolve, Validate) must equal the verdict of the reference evaluator. Exploration: tens of thousands of distinct keyword combinations per quick run, millions in thorough; no claim beyond what was generated.",
+     "Grammar-based generation of whole 2020-12 schema documents (every assertion and applicator keyword, boolean schemas at every position, $defs/$anchor/$ref, unevaluated*, lenses for numeric/string/array/object/logic/reference interactions) with operands and instance leaves drawn from the same small boundary pools; one case in six comes from the focused annotation-flow generator of C07; each schema meets 4 instances (schema-directed satisfier + single-point mutations, free draws). The library verdict (Unmarshal, Resolve, Validate) must equal the verdict of the reference evaluator. Exploration: tens of thousands of distinct keyword combinations per quick run, millions in thorough; no claim beyond what was generated.",
      MODEL_NOTE + " multipleOf is stripped when an instance holds |n| >= 2^50 (the property's own exactness restriction).")
 prop("C02",
      "property-based testing (rapid): draft-07 documents and Loader universes vs. the reference evaluator in draft-07 mode; metamorphic $schema configurations",
-     "Three generated families: draft-07 documents (definitions, both dependency forms, both items forms + additionalItems, #name $id anchors, $ref with siblings and with $id beside it) against the draft-07 reference evaluator; draft-07 roots with 1-2 Loader documents (with/without own $schema) referenced from the root and from subschemas; and one schema under every $schema configuration (absent, 2020-12, both draft-07 spellings, unsupported values which must be refused for every instance). The run reports how often the two drafts' evaluators disagree on the instance (cases that can tell the drafts apart).",
+     "Three generated families: draft-07 documents (definitions, both dependency forms, both items forms + additionalItems, #name $id anchors, $ref with siblings and with $id beside it) against the draft-07 reference evaluator; draft-07 roots with 1-2 Loader documents (with/without own $schema) referenced from the root and from subschemas; documents built around one or two constructs whose meaning differs between the drafts ($ref with an asserting sibling, array items + additionalItems, dependencies, #name anchors), some of them under a near-miss $schema spelling (expectation: refused for every instance OR draft-07 semantics throughout); and one schema under every $schema configuration (absent, 2020-12, both draft-07 spellings, unsupported values which must be refused for every instance). The run reports how often the two drafts' evaluators disagree on the instance (cases that can tell the drafts apart).",
      MODEL_NOTE + " Unsupported $schema values are chosen far from the supported spellings.")
 prop("C05",
      "property-based testing (rapid): round-trip and metamorphic oracles over reflection-generated Schema structs and grammar-generated documents",
-     "Schema struct values populated field by field through reflection (nil / empty non-nil / pointer-to-nil / nested) under the documented exclusivity rules are marshaled, unmarshaled and marshaled again: bytes (or JSON value when PropertyOrder is set) must agree, Resolve must behave alike and verdict vectors on generated instances must be identical. Schema documents of both drafts (plus unknown keywords) must re-marshal to themselves up to the documented normalisations (implemented explicitly in the harness) and keep their verdicts, which are also compared with the reference evaluator.",
+     "Schema struct values populated field by field through reflection (nil / empty non-nil / pointer-to-nil / nested) under the documented exclusivity rules are marshaled, unmarshaled and marshaled again: bytes (or JSON value when PropertyOrder is set) must agree, Resolve must behave alike and verdict vectors on generated instances must be identical. Schema documents of both drafts (plus unknown keywords) must re-marshal to themselves up to the documented normalisations (implemented explicitly in the harness), keep their verdicts (also compared with the reference evaluator), and unmarshal to the same schema from an equivalent spelling of the same JSON text (\\uXXXX escapes, whitespace).",
      MODEL_NOTE + " Numbers are compared after float64 rounding (encoding/json re-spells floats).")
 prop("C07",
      "property-based testing (rapid) with exhaustive instance enumeration per schema, differential against the reference evaluator's explicit evaluated sets",
@@ -49,12 +49,12 @@ prop("C12",
      "Trusted: C11 ties Equal to JSON equality. maphash seeds cannot be chosen by the harness (sampled, not enumerated).")
 prop("C15",
      "property-based testing (rapid): algebraic laws of ApplyDefaults (no re-implementation) + ValidateDefaults vs. the reference evaluator",
-     "Schemas with defaults at any depth of properties (all JSON types, incomplete object defaults, required/default conflicts, defaults on object and non-object subschemas) x instances (any subset of properties, non-objects anywhere). Checked: idempotence, before is-contained-in after, no required key filled, every added key declared and justified by a default or a non-empty container, documented completeness; Resolve(ValidateDefaults) errs exactly when the reference evaluator rejects some default against its declaring subschema.",
+     "Schemas with defaults at any depth of properties (all JSON types, incomplete object defaults, required/default conflicts, defaults on object and non-object subschemas) x instances (any subset of properties, non-objects anywhere). Checked: idempotence, before is-contained-in after, no required key filled, every added key declared and justified by a default or a non-empty container, documented completeness, isolation between instances (the first result is scribbled over, a fresh copy must still get the declared defaults); Resolve(ValidateDefaults) errs exactly when the reference evaluator rejects some default against its declaring subschema.",
      MODEL_NOTE + " Schemas are reference-free (documented limitation of ApplyDefaults/ValidateDefaults).")
 prop("C18",
      "property-based testing (rapid): metamorphic relation (decorate a schema, verdicts must not change)",
-     "Generated schemas of both drafts are decorated at 1-4 random subschemas with documented non-asserting keywords (well-typed values) or unknown names (letter-case variants of every standard keyword, Go field names, random identifiers) carrying arbitrary JSON; Unmarshal and Resolve must accept and every instance must keep its verdict.",
-     "The undecorated library verdict is the reference (C01/C02 tie it to the specification).")
+     "Generated schemas of both drafts are decorated at 1-4 random subschemas with documented non-asserting keywords (well-typed values) or unknown names (letter-case variants of every standard keyword, Go field names, random identifiers) carrying arbitrary JSON; Unmarshal and Resolve must accept and every instance must keep its verdict; a third of the cases aim a decoration at a property its parent requires and add an instance lacking exactly that property.",
+     "The undecorated library verdict is the reference (C01/C02 tie it to the specification). Open known finding number-beyond-float64-refused (1e999 in an unknown keyword or examples) is generated in a 4% slice only.")
 
 
 prop("C03",
@@ -67,15 +67,15 @@ prop("C04",
      "Trusted: encoding/json; reflect. Exclusions are the property's own (nil maps, []byte, ',string', user marshalers, pointer-receiver marshalers in non-addressable positions).")
 prop("C06",
      "property-based testing (rapid, history-based): generated dynamic-scope topologies x sequences of Validate calls vs. an explicit dynamic-scope model",
-     "1-5 resources (embedded or Loader-supplied) independently declare $dynamicAnchor/$anchor/nothing at their root or on a detached child; entry paths visit resources in random order through $ref / pointer-form $dynamicRef / allOf hops and end in a fragment, resource-relative or pointer-form $dynamicRef; 2-10 Validate calls share one Resolved and each verdict is compared with the reference evaluator (outermost declaring resource wins, otherwise plain $ref) and with a freshly resolved copy (no leak between calls).",
+     "1-5 resources (embedded or Loader-supplied) independently declare $dynamicAnchor/$anchor/nothing at their root or on a detached child; entry paths visit resources in random order through $ref / pointer-form $dynamicRef / allOf hops and end in a fragment, resource-relative or pointer-form $dynamicRef; paths may join earlier paths (one $dynamicRef object under several scopes) and be combined under anyOf/oneOf/if/not (a failing branch followed by another in one call); 2-10 Validate calls share one Resolved and each verdict is compared with the reference evaluator (outermost declaring resource wins, otherwise plain $ref) and with a freshly resolved copy (no leak between calls).",
      MODEL_NOTE)
 prop("C09",
      "property-based testing (rapid): type-directed single-point mutation of valid encodings; implication oracle against encoding/json's strict decoder",
-     "Valid encodings of generated values are mutated at a position chosen by walking type and document in parallel (drop a required/optional key, add an undeclared key, inadmissible JSON type, integer past either bound of its sized kind, negative for unsigned, fraction for integer, null, wrong array length, 1e300 for float32) or freely; whenever the inferred schema accepts, Decoder.DisallowUnknownFields must decode into new(T); mutations that break a rule the property names must be rejected.",
+     "Valid encodings of generated values are mutated at a position chosen by walking type and document in parallel (drop a required/optional key, add an undeclared key, inadmissible JSON type, integer past either bound of its sized kind, negative for unsigned, fraction for integer, null, wrong array length, 1e300 for float32) or freely, and documents are also built from the inferred schema itself (schema-directed); whenever the inferred schema accepts, Decoder.DisallowUnknownFields must decode into new(T); mutations that break a rule the property names must be rejected.",
      "Trusted: encoding/json's decoder as the definition of 'decodes'. Integers are normalised to the property's domain (plain spelling, 64-bit range of the position's type).")
 prop("C10",
      "property-based testing (rapid) for robustness: hostile inputs to every entry point under recover() and a deadline, with a per-case journal for fatal errors; native fuzzing in the thorough tier",
-     "Four targets: near-valid and hostile schema bytes through Unmarshal/Resolve/Validate/ApplyDefaults; wild Schema graphs (shared/cyclic pointers, nil children, malformed URIs/regexps, conflicting fields) with odd BaseURIs and loaders; ForType on arbitrary types incl. recursive and unsupported ones; C03 universes with failing, document-swapping and self-returning loaders. Instances of any shape in any Go representation. A panic, a 20 s overrun or a dead process (journal) is a violation.",
+     "Targets: near-valid and hostile schema bytes through Unmarshal/Resolve/Validate/ApplyDefaults; equality-centric schemas (uniqueItems/const/enum) meeting arrays of arrays with equal duplicates in every representation; defaults-centric schemas meeting typed and named-key maps; wild Schema graphs (shared/cyclic pointers, nil children, malformed URIs/regexps, conflicting fields) with odd BaseURIs and loaders; ForType on arbitrary types incl. recursive and unsupported ones; C03 universes with failing, document-swapping and self-returning loaders. Instances of any shape in any Go representation. A panic, a 20 s overrun or a dead process (journal) is a violation.",
      "Validate is only called on graphs without an in-place reference cycle (the property's proviso; decided through the verif hook VerifRefs, used as a guard, never as an oracle). Loader universes are finite by construction.")
 prop("C13",
      "schedule exploration by the Go runtime under the race detector (-race, halt_on_error) over rapid-generated workloads + sequential-equivalence oracle",
@@ -87,7 +87,7 @@ prop("C14",
      "Map iteration order and hash seeds are sampled, not enumerated. Error texts are not compared, only error-ness.")
 prop("C16",
      "property-based testing (rapid): metamorphic and differential oracles for ForType (twice-equal, pointer-disjointness, For(*T) vs For(T), encoding/json field order) over generated types and options",
-     "For generated types (incl. recursive, unsupported, repeated) and options (TypeSchemas overriding pool types that occur plain, by pointer or embedded; IgnoreInvalidTypes) the check demands: equal results of two calls, pairwise disjoint Schema pointer sets, untouched TypeSchemas, Resolve accepts, For(*T)=For(T)+null, properties key sequence and required set equal to the harness's own enumeration of encoding/json's fields (cross-checked against json.Marshal of a fully populated value), overrides present wherever their type occurs, error for recursive types within a deadline, error or dropping for unsupported kinds.",
+     "For generated types (incl. recursive, unsupported, repeated) and options (TypeSchemas overriding pool types that occur plain, by pointer or embedded; IgnoreInvalidTypes) the check demands: equal results of two calls, pairwise disjoint Schema pointer sets, untouched TypeSchemas, Resolve accepts, For(*T)=For(T)+null, properties key sequence and required set equal to the harness's own enumeration of encoding/json's fields (cross-checked against json.Marshal of a fully populated value), overrides (of named pool types and of unnamed composite types occurring in T) present wherever their type occurs, no null type on non-pointer non-slice positions, descriptions equal to the jsonschema tags, error for recursive types within a deadline, error or dropping for unsupported kinds.",
      "Trusted: encoding/json for field order; the harness's own tag parser and dominance rule (checked against encoding/json on every case).")
 prop("C17",
      "property-based testing (rapid): pointers generated by an own RFC 6901 escaper / RFC 3986 fragment encoder over a reflection-derived keyword table; marker acceptance vectors vs. the reference pointer walk; negative probes",
